@@ -42,7 +42,10 @@ def main():
         meta = {}
         mf = src + "/meta%s.json" % i
         if stored:
-            try: meta = json.load(open(stored + "/meta.json")).get("seed_meta", {})
+            try:
+                oldm = json.load(open(stored + "/meta.json"))
+                meta = oldm.get("seed_meta", {})
+                if oldm.get("checks"): checks = sorted(set(list(oldm["checks"].keys()) + [ID]))
             except Exception: meta = {}
         elif os.path.exists(mf):
             try: meta = json.load(open(mf))
@@ -56,7 +59,17 @@ def main():
         head = sh("git -C /repo rev-parse --short HEAD")[1].strip()
         res["evaluated_at_repo_head"] = head
         rc, o = sh("git apply --check %s" % pf, cwd=wt)
+        threeway = False
+        if rc:
+            rc3, o3 = sh("git apply --3way %s && git reset -q" % pf, cwd=wt)
+            if rc3 == 0 and "<<<<<<<" not in sh("git diff", cwd=wt)[1]:
+                sh("git diff > /tmp/seedeval/%s-%s.ported.diff && git checkout -- ." % (ID, i), cwd=wt)
+                pf = "/tmp/seedeval/%s-%s.ported.diff" % (ID, i)
+                rc, o, threeway = 0, "", True
+            else:
+                sh("git checkout -- . ; git clean -fdq", cwd=wt)
         res["applies"] = rc == 0
+        if threeway: res["applied_with_3way_merge_at_head"] = True
         if rc:
             res["apply_error"] = o[-500:]
             print(ID, i, "patch does not apply at HEAD", o[-300:])
@@ -106,6 +119,9 @@ def main():
             res["checks"] = det
             res["detected"] = any(v["exit"] == 1 and v["violation_lines"] > 0 for v in det.values())
         if not stored: shutil.copy(pf, out + "/patch.diff")
+        elif res.get("applied_with_3way_merge_at_head"):
+            if not os.path.exists(out + "/patch.orig.diff"): shutil.copy(out + "/patch.diff", out + "/patch.orig.diff")
+            shutil.copy(pf, out + "/patch.diff")
         if skip_suite and os.path.exists(out + "/meta.json"):
             try:
                 old = json.load(open(out + "/meta.json"))
